@@ -40,6 +40,8 @@ type Case struct {
 
 	// glob op
 	Pattern string `json:"pattern,omitempty"`
+	// the same as bytes (a string that is not valid UTF-8 does not survive JSON): used instead of Pattern when set
+	PatternB []byte `json:"pattern_b,omitempty"`
 
 	// session op: several RunFiles calls (and file rewrites in between) on the same paths in ONE process
 	Steps []Step `json:"steps,omitempty"`
@@ -168,6 +170,7 @@ type Result struct {
 	Runs        []Run          `json:"runs,omitempty"`
 	ASTEqual    []bool         `json:"ast_equal,omitempty"` // astcmp: Srcs[i] vs Srcs[0]
 	Files       []string       `json:"files,omitempty"`     // glob
+	FilesB      [][]byte       `json:"files_b,omitempty"`   // glob: the same names as bytes
 	Calls       []Call         `json:"calls,omitempty"`
 	Mismatch    string         `json:"mismatch,omitempty"` // reader op: first wrong read
 	Counters    map[string]int `json:"counters,omitempty"`
